@@ -131,3 +131,21 @@ PROPS["C01"] = dict(
     level_note="Soundness only (a rejected valid token is C05's business); fixture keys in quick, more sizes in thorough.",
     design_ref="DESIGN.md section 7, C01",
 )
+
+
+PROPS["C09"] = dict(
+    level="model_checking", exhaustive=True,
+    stages=lambda tier, seed: [mc("matrix", "MC_C09", "MC_C09_%s.cfg" % tier)],
+    rule="matrix from MC_C09: oct keys of length {0,1,16,31,32,33,47,48,49,63,64,65,100,160} (quick) / every length "
+         "0..160 (thorough) x HS256/384/512; RSA moduli of 512, 1024, 2040, 2047, 2048, 2056, 3072, 4096 bits x "
+         "RS/PS algorithms; P-256/384/521 and secp256k1 x every ES algorithm; Ed25519 and Ed448; each through "
+         "generate (private key), verify of the generated token and verify of a token signed by the driver's own "
+         "signer (public key), on OpenSSL and GnuTLS. Both directions are judged: below the floor never succeeds, "
+         "at or above it works. distinct = distinct cells.",
+    assumptions=ASSUME_COMMON,
+    level_text="The matrix is finite and enumerated completely (every oct length in thorough); TLC shows the reference "
+               "outcome satisfies C09 on every cell and every cell is executed against libjwt.",
+    level_note="RSA/EC/OKP keys are fixtures from harness/keys (one per size/curve); ES256 vs secp256k1 (same size, "
+               "other curve) and ES256K under GnuTLS are left unconstrained.",
+    design_ref="DESIGN.md section 7, C09",
+)
